@@ -598,6 +598,7 @@ impl<R: DdsRuntime> DcpsParticipantFactory<R> {
                     &data_writer_handle,
                     &dynamic_data,
                     timestamp,
+                    &self.runtime,
                 )),
                 Err(e) => reply_sender.send(Err(e)),
             },
